@@ -16,11 +16,20 @@ META = {
             "the same commander: every committed transaction (answer and log, captured when it is inserted) is held against ITS OWN element, the "
             "accept/reject decision of each element against a replay on the balances left by the elements before it, and the outcome of each element "
             "against the Lean model run on those balances. Posting lists are biased towards near-collisions of the textual encodings of a monetary "
-            "(asset||amount cut at different points, prefix assets, suffix amounts).",
+            "(asset||amount cut at different points, prefix assets, suffix amounts). A third stream (area txseq) submits SEQUENCES of posting lists to ONE commander "
+            "(one compilation cache), directly and through the v2 handler: TxToScriptData's text depends only on the shape of a list, so whatever is kept between two "
+            "requests under a key derived from the text must not hand the later request the earlier one's program - the stored pairs of corpus/nscache (different shapes over "
+            "the same variables whose texts collide under CRC-32 IEEE / Castagnoli, FNV-1 / FNV-1a 32, Adler-32, the 31- and 33-multiplier string hashes, 4-byte truncations "
+            "of SHA-256 / MD5 / SHA-1; found by tools/collide through the real function) as A-then-B and B-then-A, plus random sequences of 2-4 lists over one pool; every "
+            "committed transaction is held against its own request on the balances left by the requests before it. References and metadata keys / values carry NUL, "
+            "C0 controls, DEL, NEL, no-break space, line / paragraph separators, BOM, zero-width space (and pairs of keys differing only by one) in a fifth of the requests, "
+            "on every path and in script-mode bulk elements (request metadata and reference judged): the engine must commit them as supplied or refuse the request.",
     "note": "Trusted: Lean kernel (axioms propext/Classical.choice/Quot.sound at most); Spec as the meaning of Numscript (validated against compiler+VM by "
             "C01/C08's differential, not here); the Go harness (fake backend.Ledger that forwards CreateTransaction to a real command.Commander exactly as "
             "engine.Ledger does, storage.InMemoryStore instead of PostgreSQL); reference / timestamp handling of the commander is covered by the "
-            "differential and the oracle only (engine model B owns it). Sequential requests only.",
+            "differential and the oracle only (engine model B owns it). Sequential requests only. The weak-key pairs are a corpus of KNOWN-weak digests, not a proof "
+            "that every weak cache key is caught (a 64-bit checksum or a keyed hash has no stored pair); when TxToScriptData's text format changes the stored pairs "
+            "stop colliding (the evidence counts stale pairs; tools/collide/find rebuilds them).",
     "technique": "Lean 4 proof (induction over the posting list with a replay invariant on Spec's tracked balances; string lemmas for the value "
                  "round trip) + differential correspondence with TxToScriptData, the commander and the v1/v2/bulk handlers + replay oracle",
     "design_ref": "5 (C09), 1 (A3), appendix A",
@@ -186,6 +195,17 @@ def bulk_oracle(inp, out):
             if ok and (log is None or log.get("type") != LOG_OF.get(r.get("type"))):
                 v.append(({"class": "log-count", "path": "bulkN", "element": "other"},
                           "element %d (%s) succeeded as %s, the log inserted for it is %s" % (i, el.get("action"), r.get("type"), log)))
+            if el.get("action") == "CREATE_TRANSACTION" and el.get("mode") == "script" and ok:
+                # script mode with request metadata / reference: the script (literal sends) sets no metadata of its own, so what is
+                # committed must carry the request's metadata and reference as supplied — the same `exec` serves posting mode
+                facts["script:request-fields-checked"] += 1
+                want = want_tx(el)
+                for where, got in (("returned transaction", r.get("tx")), ("persisted log", (log or {}).get("tx"))):
+                    if got is None:
+                        continue
+                    for sig, what in check_tx(want, got, where, "bulkN"):
+                        if sig["class"] in ("metadata", "reference"):
+                            v.append((dict(sig, mode="script"), "element %d of %d (script mode): %s" % (i, len(els), what)))
             if log is not None and "tx" in log:   # a script / revert transaction: part of the state the next elements meet
                 for s_, d_, a_, as_ in log["tx"]["postings"]:
                     bal[(s_, as_)] -= int(a_)
@@ -449,6 +469,128 @@ def run_txbulk(ctx):
         "features": dict(feats), "elements_by_outcome": dict(facts)}
 
 
+def seq_from_corpus():
+    """the pairs of corpus/nscache ("lists": two posting lists whose TxToScriptData texts collide under a weak 32-bit digest) as
+    sequences for ONE commander: A then B, and B then A; balances cover the whole sequence"""
+    rows = []
+    for line in corpus_inputs("nscache"):
+        lists = line.get("lists")
+        if not lists or line.get("force"):
+            continue
+        for order in ((0, 1), (1, 0)):
+            seq = [lists[k] for k in order]
+            need = collections.OrderedDict()
+            for ps in seq:
+                for p in ps:
+                    if p["source"] != "world":
+                        need[(p["source"], p["asset"])] = need.get((p["source"], p["asset"]), 0) + int(p["amount"])
+            rows.append({"bal": [[a, x, str(v)] for (a, x), v in need.items() if v],
+                         "requests": [{"postings": ps, "kind": "valid", "meta": {"order": "o-%d" % k}, "ref": "", "ts": None, "tz": 0} for k, ps in enumerate(seq)],
+                         "corpus": True, "family": line.get("family"), "digest": line.get("digest"), "key": line.get("key"),
+                         "texts": [line["texts"][k] for k in order]})
+    return rows
+
+
+def seq_oracle(inp, out):
+    """the property on a sequence of requests submitted to one commander: every request, in turn, on the balances and references the
+    requests before it left"""
+    v = []
+    for path in ("direct", "v2"):
+        res = out.get(path)
+        if not isinstance(res, list) or len(res) != len(inp["requests"]) or any("panic" in r for r in res):
+            v.append(({"class": "panic" if isinstance(res, list) and any("panic" in r for r in res) else "unreadable-answer", "path": path + "-seq"},
+                      "path %s answered %s" % (path, canon(res)[:300])))
+            continue
+        bal, refs = table(inp["bal"]), set()
+        for k, (rq, r) in enumerate(zip(inp["requests"], res)):
+            pos = "first" if k == 0 else "later"
+            accepted = "tx" in r
+            dup = bool(rq.get("ref")) and rq["ref"] in refs
+            trial = collections.defaultdict(int, bal)
+            covered = rq["kind"] == "valid" and replay(rq["postings"], trial)
+            if not accepted:
+                if r.get("newlogs") != 0 or "log" in r:
+                    v.append(({"class": "partial", "path": path + "-seq", "position": pos}, "request %d refused (%s), the store has %s new log(s)" % (k, r.get("detail"), r.get("newlogs"))))
+                if covered and not dup:
+                    v.append(({"class": "spurious-reject", "answer": r.get("err"), "path": path + "-seq", "position": pos},
+                              "request %d of the sequence refused (%s/%s) although its replay on the balances left by the requests before it never runs short" % (
+                                  k, r.get("err"), r.get("detail"))))
+                elif not covered and not dup and rq["kind"] == "valid" and r.get("err") != "insufficient_funds":
+                    v.append(({"class": "wrong-refusal", "answer": r.get("detail"), "path": path + "-seq", "position": pos}, "request %d refused with %s instead of insufficient funds" % (k, r.get("detail"))))
+                continue
+            if rq["kind"] != "valid":
+                v.append(({"class": "invalid-accepted", "kind": rq["kind"], "path": path + "-seq"}, "request %d committed with %s" % (k, rq["kind"])))
+                continue
+            if not covered and not dup:
+                v.append(({"class": "overdraft-accepted", "path": path + "-seq", "position": pos}, "request %d committed although its replay finds a source short" % k))
+            want = want_tx(rq)
+            for sig, what in check_tx(want, r["tx"], "returned transaction", path + "-seq"):
+                v.append((dict(sig, position=pos), "request %d of %d on one commander: %s" % (k, len(res), what)))
+            if r.get("newlogs") != 1 or "log" not in r:
+                v.append(({"class": "log-count", "path": path + "-seq", "position": pos}, "request %d: %s new logs for one committed request" % (k, r.get("newlogs"))))
+            else:
+                for sig, what in check_tx(want, r["log"], "persisted log", path + "-seq"):
+                    v.append((dict(sig, position=pos), "request %d of %d on one commander: %s" % (k, len(res), what)))
+            held = r.get("log") or r["tx"]
+            for s_, d_, a_, as_ in held["postings"]:
+                if a_.lstrip("-").isdigit():
+                    bal[(s_, as_)] -= int(a_)
+                    bal[(d_, as_)] += int(a_)
+            if held["ref"]:
+                refs.add(held["ref"])
+    return v
+
+
+def run_txseq(ctx):
+    """sequences of posting lists on ONE commander (one compilation cache): the stored colliding pairs, then random sequences"""
+    area = "txseq"
+    if ctx.replay_file:
+        rp = json.load(open(ctx.replay_file))
+        inputs = [rp["replay"]["input"]]
+        for k, r in enumerate(inputs):
+            r.setdefault("id", k)
+    else:
+        gen = ctx.path(area + ".gen.jsonl")
+        p = run_harness([area, "gen", "-seed", ctx.seed, "-n", 400 if ctx.quick else 20000, "-tier", ctx.tier, "-out", gen])
+        if p.returncode != 0:
+            ctx.l2_broken.append({"stream": area + "-gen", "detail": (p.stdout + p.stderr)[-2000:]})
+            return
+        cs = seq_from_corpus()
+        for k, r in enumerate(cs):
+            r["id"] = -(k + 1)
+        inputs = cs + read_jsonl(gen)
+    inf, outf = ctx.path(area + ".in.jsonl"), ctx.path(area + ".impl.jsonl")
+    write_jsonl(inf, inputs)
+    p = run_harness([area, "exec", "-in", inf, "-out", outf])
+    if p.returncode != 0:
+        ctx.l2_broken.append({"stream": area + "-exec", "detail": (p.stdout + p.stderr)[-2000:]})
+        return
+    impl = {r["id"]: r["out"] for r in read_jsonl(outf)}
+    st = collections.Counter()
+    digests = collections.Counter()
+    for inp in inputs:
+        out = impl.get(inp["id"])
+        if out is None:
+            continue
+        if "panic" in out:
+            ctx.violation({"property": "C09", "class": "panic", "path": "seq"}, "sequence case panicked: %s" % out["panic"], {"area": area, "input": inp, "observed": out})
+            continue
+        st["sequences"] += 1
+        st["requests"] += len(inp["requests"])
+        texts = out.get("scripts") or []
+        st["sequences_whose_shapes_all_differ"] += 1 if len(set(texts)) == len(texts) else 0
+        st["sequences_repeating_a_shape (a legitimate cache hit)"] += 1 if len(set(texts)) < len(texts) else 0
+        if inp.get("corpus"):
+            digests[inp.get("digest")] += 1
+            stored = [bytes.fromhex(t).decode() for t in inp.get("texts", [])]
+            if stored != texts:
+                st["stored_pairs_whose_texts_TxToScriptData_no_longer_emits (stale: re-run tools/collide/find)"] += 1
+        for sig, what in seq_oracle(inp, out):
+            ctx.violation(dict(sig, property="C09"), what, {"area": area, "input": {k: v for k, v in inp.items() if k != "texts"}, "observed": out})
+    ctx.cov["evaluations"] += st["requests"] * 2
+    ctx.cov["input_distribution"]["txseq"] = dict(st, stored_colliding_pairs_by_digest=dict(sorted(digests.items())))
+
+
 def run(ctx):
     ctx.cov["trusted_base"] = [
         "Lean 4.33 kernel; axioms allowed: propext, Classical.choice, Quot.sound",
@@ -463,7 +605,7 @@ def run(ctx):
     ctx.l1()
     if not (ctx.ensure_driver() and ctx.ensure_harness()):
         return
-    areas = ("txscript", "txbulk")
+    areas = ("txscript", "txbulk", "txseq")
     if ctx.replay_file:   # a replay carries one input of one area
         import json
         areas = (json.load(open(ctx.replay_file)).get("replay", {}).get("area", "txscript"),)
@@ -472,6 +614,8 @@ def run(ctx):
         run_txscript(ctx)
     if "txbulk" in areas:
         run_txbulk(ctx)
+    if "txseq" in areas:
+        run_txseq(ctx)
     ctx.cov["rule"] = ("(a) random posting lists (1..%d postings over a pool of 2-5 or 11-15 accounts incl. world, 1-3 repeating amounts incl. 0 / 2^64±1 / 2^70, "
                        "1-2 assets incl. /precision; chains, fan-in/out, self-transfers; 40%% of the lists draw assets and amounts from ONE near-collision family: "
                        "assets stem+w[:i] or stem/w[:i] and amounts the suffixes/prefixes of one digit word w, 60%% of those with two postings whose "
@@ -481,7 +625,10 @@ def run(ctx):
                        "request with a repeated account, a repeated amount, a chain or a text collision. (b) bulks of 1-4 elements: 62%% posting-mode creates "
                        "(1-4 postings from pools shared by the bulk, metadata key / reference / timestamp each present or absent per element, 8%% malformed), "
                        "script creates, reverts, metadata writes, unknown actions, undecodable data; balances derived for the whole sequence (exact / one short / "
-                       "empty / surplus), continueOnFailure on or off; non-trivial = distinct bulk with at least two posting-mode creates") % (12 if ctx.quick else 30)
+                       "empty / surplus), continueOnFailure on or off; non-trivial = distinct bulk with at least two posting-mode creates. (c) sequences on one commander: "
+                       "the weak-key pairs of corpus/nscache in both orders + random sequences of 2-4 lists (1-5 postings over 1-3 accounts + world and 1-2 monetaries; a "
+                       "quarter repeat the previous shape with other amounts, a third permute / end-swap it). Strings: 22%% of the single requests and 18%% of the bulk elements "
+                       "get NUL / control / invisible characters in reference, metadata keys and values") % (12 if ctx.quick else 30)
     ctx.assumptions += [
         "requests are submitted one at a time, never as dry runs (known engine defects on those paths are tracked under C02/C14/C16)",
         "the persisted log is the one held by storage.InMemoryStore; the SQL store's encoding is C13's business",
